@@ -27,17 +27,19 @@ struct ResolveDecision {
 struct ResolveRec {
     uint64_t seq = 0; ns_t t = 0; std::string host, port;
     ResolveDecision decision; uint64_t seq_done = 0; ns_t t_done = 0;
+    int inst = -1;    // which resolver object (one per client service object) issued it
 };
 
 struct ResolverModel {
     std::function<ResolveDecision(const std::string& host, const std::string& port, int nth)> policy;
     std::vector<ResolveRec> log;
     int pending = 0;
+    int next_inst = 0;
 };
 extern ResolverModel* g_resolver;
 
 void start_resolve(const asio::any_io_executor& ex, std::string host, std::string port,
-                   asio::any_completion_handler<void(error_code, resolver_results)> h);
+                   asio::any_completion_handler<void(error_code, resolver_results)> h, int inst = -1);
 
 class sim_resolver {
 public:
@@ -45,7 +47,7 @@ public:
     using results_type = resolver_results;
 
     template <typename Executor>
-    explicit sim_resolver(Executor ex) : ex_(std::move(ex)) {}
+    explicit sim_resolver(Executor ex) : ex_(std::move(ex)), inst_(g_resolver ? g_resolver->next_inst++ : -1) {}
 
     executor_type get_executor() noexcept { return ex_; }
     void cancel() {}
@@ -53,13 +55,14 @@ public:
     template <typename ResolveToken>
     decltype(auto) async_resolve(const std::string& host, const std::string& service, ResolveToken&& token) {
         return asio::async_initiate<ResolveToken, void(error_code, results_type)>(
-            [ex = ex_](auto handler, std::string host, std::string service) {
+            [ex = ex_, inst = inst_](auto handler, std::string host, std::string service) {
                 start_resolve(ex, std::move(host), std::move(service),
-                    asio::any_completion_handler<void(error_code, results_type)>(std::move(handler)));
+                    asio::any_completion_handler<void(error_code, results_type)>(std::move(handler)), inst);
             }, token, host, service);
     }
 private:
     executor_type ex_;
+    int inst_ = -1;
 };
 
 } // namespace sim
